@@ -26,6 +26,8 @@ func main() {
 	seed := fs.Int64("seed", 1, "VERIF_SEED")
 	outp := fs.String("out", "", "output NDJSON file")
 	arg := fs.String("arg", "", "command-specific argument (file path)")
+	nArg := fs.Int64("n", 12, "word count (osproc)")
+	langArg := fs.Int64("lang", 2, "language (osproc)")
 	fs.Parse(os.Args[2:])
 	if *outp == "" {
 		fatal("-out required")
@@ -38,6 +40,8 @@ func main() {
 	switch cmd {
 	case "gen":
 		genFor(*prop, *tier, *seed)
+	case "osproc":
+		runOSProc(*nArg, *langArg, *seed)
 	case "prog":
 		runProgramFile(*arg, *seed)
 	case "replay":
